@@ -24,6 +24,17 @@ HANDLERS = {}
 SG_MODE = [False]  # when True, graph-cutting ops wrap values in sg(.) (C12)
 
 
+def _sg(v):
+    if v.is_const():
+        return v
+    ats = v.atoms()
+    if len(ats) == 1 and v.d.is_one() and len(v.n.t) == 1:
+        i = next(iter(ats))
+        if nf.ATOMS.atoms[i][0] == "fn" and nf.ATOMS.atoms[i][1][0] == "sg" and v.same(nf.atom_rf(i)):
+            return v
+    return nf.ufn("sg", v)
+
+
 def _obj(x):
     """anything -> numpy array (object dtype for reals, int64/bool kept)"""
     if isinstance(x, ST):
@@ -161,6 +172,9 @@ class ST:
             a = _obj(a)
         if a.dtype != object:
             a = _as_float_obj(a)
+        if SG_MODE[0] and not torch.is_grad_enabled():
+            # results produced under torch.no_grad() are cut from the autograd graph (ghost marker)
+            a = _map(_sg, a)
         self.a = a
         self.requires_grad = False
         self.grad = None
@@ -259,7 +273,7 @@ class ST:
         v = self.a.reshape(-1)[0]
         if v.is_const():
             return float(v.const_value())
-        return nf.ufn("sg", v) if SG_MODE[0] else v
+        return _sg(v) if SG_MODE[0] else v
 
     def tolist(self):
         def conv(v):
@@ -472,7 +486,7 @@ def _clone(x, *a, **k):
 @reg("detach")
 def _detach(x):
     if SG_MODE[0]:
-        return ST(_map(lambda v: v if v.is_const() else nf.ufn("sg", v), _obj_f(x)))
+        return ST(_map(_sg, _obj_f(x)))
     return ST(_obj_f(x))
 
 
@@ -1478,7 +1492,7 @@ def stensor(data, *a, **k):
         return _obj(d)
     r = ST(np.asarray(conv(data), dtype=object))
     if SG_MODE[0]:
-        r = ST(_map(lambda v: v if v.is_const() else nf.ufn("sg", v), r.a))
+        r = ST(_map(_sg, r.a))
     return r
 
 
